@@ -34,7 +34,18 @@ META = dict(
          "skipped hour, fold=1 where it means nothing, one instant in several spellings, one wall clock in several zones, equal "
          "values as distinct objects, the same datetime object for several tasks, the same task evaluated at several instants, "
          "times handed over as ISO 8601 strings, tasks built one by one or all before the first evaluation (any order), a third on a "
-         "non-UTC host (a third of those the zone of the schedules); every element judged on its own by the same oracle and model",
+         "non-UTC host (a third of those the zone of the schedules); every element judged on its own by the same oracle and model; "
+         "a quarter of the single cases and 40% of the groups also vary the OTHER fields of the schedule, which the statement does "
+         "not mention: a cron_offset on the one-shot (None given explicitly, timedelta zero / positive / negative, sub-second, "
+         "seconds..an hour, whole and half hours, more than a day, a whole number of seconds the model turns into a timedelta, an "
+         "IANA zone name), task_name / labels / args / kwargs / schedule_id shapes (odd strings, keys named time / cron / "
+         "cron_offset / schedule, duplicate ids), the construction path (constructor, model_validate of a dict, offset assigned "
+         "after construction, model_copy shallow / deep, or a `schedule` label of a task of a real InMemoryBroker returned by the "
+         "real LabelScheduleSource.get_schedules() - for build-first groups ONE call for all schedules), one timedelta object "
+         "shared by several schedules, the offset re-assigned on a task between two evaluations; 40% of those with an offset aim "
+         "T (or now) at now / the horizon / the minute boundary shifted by +- the offset; neither the oracle nor the model sees "
+         "any of these fields; a schedule that carries cron AND time (3-4% of the varied ones) is run and counted but not "
+         "judged (the cron branch decides: C13)",
     trusted_base=["model: coq/theories/SchedDelay.v (hand-written transcription of get_task_delay's time branch)",
                   "datetime<->integer instant conversion in harness/drivers/sched_delay.py"],
     assumptions=["asyncio.sleep(d) not waking early is outside this property (C15)"],
@@ -158,6 +169,119 @@ def gen_case(r):
     c = gen_dst_case(r) if r.random() < .15 else gen_plain(r)
     if r.random() < .42:
         c = gen_host(r, c)
+    if r.random() < .25:
+        c = gen_sched(r, c)
+    return c
+
+
+# The OTHER fields of the schedule.  The statement speaks of "a schedule with a target time T": which task it names, its
+# labels / args / kwargs / schedule_id, whether it ALSO carries a cron_offset (LabelScheduleSource copies the key of the
+# label dict onto every schedule, cron or not; a source with a column default does the same) and through which door it
+# became a ScheduledTask are not in it - the verdict must not depend on them.  Until round 6 all of them were constants.
+OFFZONES = ZONES + ["UTC", "Asia/Tokyo", "Etc/GMT+12", "Pacific/Kiritimati", "America/Los_Angeles"]
+NAMES = ["t", "pkg.mod:task", "", " ", "None", "t\u00e4sk-\u2713", "a" * 300, "cron", "time", "0", "two\nlines"]
+LABELS = [{}, {"queue": "q"}, {"cron_offset": 10800}, {"time": "2030-01-01T00:00:00"}, {"cron": "* * * * *"},
+          {"schedule": [{"cron": "* * * * *"}]}, {"a": None, "b": [1, {"c": 2}], "": ""}, {"retry_on_error": True, "max_retries": 3},
+          {"cron_offset": "Europe/Berlin", "time": 0}]
+ARGS = [[], [1], [None], ["a", 2.5, [1, 2], {"k": "v"}], [0] * 20]
+KWARGS = [{}, {"x": 1}, {"time": 1, "cron_offset": "Europe/Berlin"}, {"a": {"b": [1, None]}}, {"cron": None}]
+SIDS = ["", "dup", "0", "x" * 64, "\u0438\u0434-1", "id with spaces", "dup"]
+CRONS = ["* * * * *", "0 0 1 1 *", "*/5 * * * *", "59 23 31 12 *"]
+
+
+def gen_off_td(r):
+    """a non-zero timedelta offset: sub-second, seconds .. an hour, zone-like whole / half hours, more than a day"""
+    k = r.random()
+    if k < .2:
+        us = r.choice([1, 2, 999_999, 500_000, r.randrange(1, US)])
+    elif k < .45:
+        us = r.randrange(1, 3600) * US + r.choice([0, 0, 1, 999_999, r.randrange(US)])
+    elif k < .8:
+        us = r.randint(1, 14) * 3600 * US + r.choice([0, 0, 30, 45]) * MIN
+    else:
+        us = r.randrange(24 * 3600, 46 * 3600) * US + r.choice([0, 0, r.randrange(US)])
+    off = {"kind": "td", "us": r.choice([1, 1, -1]) * us}
+    if us % US == 0 and r.random() < .15:
+        off["as"] = "seconds"      # the whole number of seconds a JSON-ish source stores; the model makes a timedelta of it
+    return off
+
+
+def gen_off(r):
+    k = r.random()
+    if k < .1:
+        return None
+    if k < .2:
+        return {"kind": "td", "us": 0}
+    if k < .32:
+        return {"kind": "zone", "zone": r.choice(OFFZONES)}
+    return gen_off_td(r)
+
+
+def off_shift(off, now):
+    """the amount (us) a confusion of the offset with the one-shot branch would move a decision boundary by"""
+    if off is None:
+        return 0
+    if off["kind"] == "td":
+        return off["us"]
+    return offset_at(off["zone"], now)
+
+
+def off_cat(off):
+    if off is None:
+        return "none"
+    if off["kind"] == "zone":
+        return "zone name"
+    us = off["us"]
+    if us == 0:
+        return "timedelta zero"
+    a = abs(us)
+    return "timedelta %s %s%s" % ("positive" if us > 0 else "negative",
+                                  "sub-second" if a < US else "up to an hour" if a <= 3600 * US else
+                                  "hours" if a < 86400 * US else "more than a day",
+                                  " (handed over as a number of seconds)" if off.get("as") == "seconds" else "")
+
+
+def gen_fields(r, sc, p=.3):
+    if r.random() < p:
+        sc["name"] = r.choice(NAMES)
+    if r.random() < p:
+        sc["labels"] = r.choice(LABELS)
+    if r.random() < p:
+        sc["args"] = r.choice(ARGS)
+    if r.random() < p:
+        sc["kwargs"] = r.choice(KWARGS)
+    if r.random() < p and sc.get("how") != "label":     # the label source cannot choose the id
+        sc["sid"] = r.choice(SIDS)
+
+
+def gen_how(r, sc):
+    sc["how"] = r.choices(["ctor", "label", "validate", "assign", "copy"], [.33, .3, .12, .13, .12])[0]
+    if sc["how"] == "copy":
+        sc["deep"] = r.random() < .5
+    if sc["how"] == "assign" and "off" not in sc:
+        sc["off"] = gen_off(r)
+
+
+def gen_sched(r, c):
+    """give a single time case the other fields of a schedule; 40 % of those with an offset re-aim T at the instants a
+    confusion of the offset with the one-shot branch moves the decision to (now / the horizon / the minute boundary
+    shifted by +- the offset)"""
+    sc = {}
+    if r.random() < .78:
+        sc["off"] = gen_off(r)
+        if sc["off"] is None:
+            sc["offkey"] = True        # cron_offset=None handed over explicitly, as LabelScheduleSource does
+    gen_how(r, sc)
+    gen_fields(r, sc)
+    if r.random() < .04:
+        sc["cron"] = r.choice(CRONS)   # cron AND time: the cron branch decides (C13) - run, counted, not judged here
+    c["sched"] = sc
+    sh = off_shift(sc.get("off"), c["now"])
+    if sh and r.random() < .4 and "T-at-local-reading" not in (c.get("hostkind") or ""):
+        hor = (c["now"] + MIN) // MIN * MIN + US
+        c["T"] = r.choice([c["now"], c["now"], hor, hor, c["now"] // MIN * MIN + MIN]) + sh * r.choice([1, 1, -1]) + r.choice(
+            [0, 1, -1, US, -US, r.randrange(-3, 4), r.randrange(-62 * US, 62 * US)])
+        c["aim"] = "offset-reading"
     return c
 
 
@@ -364,6 +488,11 @@ def gen_group(r):
             host, hostkind = r.choice(HOSTS_POSIX)[0], "posix"
         else:
             host, hostkind = r.choice(HOSTS_IANA), "iana"
+    pool = None
+    if r.random() < .4:          # the schedules of this process also differ in their OTHER fields (see gen_sched): a few
+        pool = [gen_off(r) for _ in range(r.choice([1, 2, 2, 3]))]   # offsets shared by the schedules, as one label dict is
+        if not any(o and o.get("us") for o in pool) and r.random() < .7:
+            pool[0] = gen_off_td(r)
     Ts = [v["T"] for v in vals]
     picks = list(range(len(vals))) + [r.randrange(len(vals)) for _ in range(r.randint(1, max(1, 9 - len(vals))))]
     elems = []
@@ -371,6 +500,12 @@ def gen_group(r):
         v = vals[vi]
         e = dict(type="time", now=aim_now(r, v["T"] if r.random() < .6 else r.choice(Ts)), T=v["T"], spell=v["spell"],
                  tag=v["tag"], scen=scen, val=vi)
+        if pool is not None:
+            e["_oi"] = r.randrange(len(pool))
+            sh = off_shift(pool[e["_oi"]], e["now"])
+            if sh and r.random() < .4:     # now aimed so that T sits at now / the horizon shifted by the offset
+                e["now"] -= sh * r.choice([1, 1, -1])
+                e["aim"] = "offset-reading"
         if host:
             e["host"], e["hostkind"] = host, hostkind
         elems.append(e)
@@ -397,7 +532,49 @@ def gen_group(r):
     g = dict(type="group", group=elems, mode=r.choice(["interleaved", "build-first"]), scen=scen)
     if g["mode"] == "build-first":
         g["build_order"] = r.sample(range(len(elems)), len(elems))
+    if pool is not None:
+        sched_group(r, g, pool)
     return g
+
+
+def sched_group(r, g, pool):
+    """the other fields of the schedules of one process: offsets from a small pool (the very same timedelta object on
+    several schedules in half of the groups), one or two task names, duplicate schedule ids, mixed construction paths -
+    or, for build-first groups, every schedule a label of ONE broker returned by one LabelScheduleSource.get_schedules();
+    a task evaluated again keeps its fields, a third of those get their offset re-assigned first"""
+    share = r.random() < .5
+    names = r.sample(NAMES, r.choice([1, 1, 2]))
+    if g["mode"] == "build-first" and r.random() < .4:
+        g["source"] = "label"
+    first = {}
+    for e in g["group"]:
+        oi = e.pop("_oi")
+        if e.get("task") is not None and e["task"] in first:
+            e["sched"] = json.loads(json.dumps(first[e["task"]]))
+            if r.random() < .35:
+                e["reoff"] = r.choice(pool) if r.random() < .6 else gen_off(r)
+            continue
+        sc = {}
+        if r.random() < .85:
+            sc["off"] = pool[oi]
+            if sc["off"] is None:
+                sc["offkey"] = True
+            elif share and sc["off"]["kind"] == "td" and sc["off"].get("as") != "seconds":
+                sc["offobj"] = oi
+        if g.get("source") == "label":
+            sc["how"] = "label"
+        else:
+            gen_how(r, sc)
+        if r.random() < .5:
+            sc["name"] = r.choice(names)
+        gen_fields(r, sc, .2)
+        if "name" in sc and sc["name"] not in names:
+            sc["name"] = r.choice(names)
+        if r.random() < .03:
+            sc["cron"] = r.choice(CRONS)
+        e["sched"] = sc
+        if e.get("task") is not None:
+            first[e["task"]] = sc
 
 
 def instant_value(r, T, zone, tag):
@@ -419,7 +596,41 @@ def instant_value(r, T, zone, tag):
 
 def nontrivial(c):
     hor = (c["now"] + MIN) // MIN * MIN + US
-    return abs(c["T"] - c["now"]) <= 62 * US or abs(c["T"] - hor) <= 3
+    if abs(c["T"] - c["now"]) <= 62 * US or abs(c["T"] - hor) <= 3:
+        return True
+    sh = off_shift(eff_off(c), c["now"])     # T at now / the horizon as a reading shifted by the schedule's offset sees them
+    return bool(sh) and any(abs(c["T"] - c["now"] - x) <= 62 * US or abs(c["T"] - hor - x) <= 3 for x in (sh, -sh))
+
+
+def eff_off(c):
+    """the cron_offset the evaluated schedule carries (the re-assigned one where the element re-assigns it)"""
+    return c["reoff"] if "reoff" in c else (c.get("sched") or {}).get("off")
+
+
+def not_judged(c):
+    """cron AND time on one schedule: the cron branch decides whether it is due - C13's statement, not this one"""
+    return (c.get("sched") or {}).get("cron") is not None
+
+
+def sched_counts(rep, c, o):
+    sc = c.get("sched")
+    if not sc:
+        rep.count("sched:other fields constant (task 't', no labels / args / kwargs, no cron_offset, constructor)")
+        return
+    rep.count("sched:schedules with other fields varied")
+    rep.count("sched:cron_offset on a one-shot:" + (off_cat(sc["off"]) if "off" in sc else "not given"))
+    if "reoff" in c:
+        rep.count("sched:cron_offset re-assigned on an existing task before the evaluation:" + off_cat(c["reoff"]))
+    rep.count("sched:built through:" + sc.get("how", "ctor"))
+    for k, name in (("name", "task_name"), ("labels", "labels"), ("args", "args"), ("kwargs", "kwargs"), ("sid", "schedule_id")):
+        if k in sc:
+            rep.count("sched:field varied:" + name)
+    if c.get("aim"):
+        rep.count("sched:T / now aimed at now / the horizon / the minute boundary shifted by +- the offset")
+    if "off_seen" in o:
+        rep.count("sched:offset as the evaluated task carries it:" + o["off_seen"].split(":")[0])
+    if sc.get("cron") is not None:
+        rep.count("sched:cron AND time on one schedule (cron branch decides - C13; run, not judged)")
 
 
 COQ_HEADER = """From Coq Require Import ZArith List. Import ListNotations.
@@ -477,6 +688,28 @@ def group_counts(rep, g):
         rep.count("group:one instant in several spellings")
     if len({(e["T"], C.canon(e["spell"])) for e in el}) < len({e.get("obj") for e in el}):
         rep.count("group:equal values as distinct objects")
+    if not any(e.get("sched") for e in el):
+        return
+    rep.count("group:sched:groups whose schedules differ in their other fields")
+    if g.get("source") == "label":
+        rep.count("group:sched:all schedules labels of ONE broker, from ONE LabelScheduleSource.get_schedules()")
+    scs = [e["sched"] for e in el if e.get("sched")]
+    if len({C.canon(sc.get("off")) for sc in scs}) > 1:
+        rep.count("group:sched:schedules with different offsets in one process")
+    by_oo = {}
+    for e in el:
+        sc = e.get("sched") or {}
+        if sc.get("offobj") is not None and e.get("task") is None:
+            by_oo.setdefault((sc["offobj"], sc["off"]["us"]), []).append(e)
+    if any(len(v) > 1 for v in by_oo.values()):
+        rep.count("group:sched:one timedelta object on several schedules")
+    sids = [sc["sid"] for e in el for sc in [e.get("sched") or {}] if "sid" in sc and e.get("task") is None]
+    if len(sids) > len(set(sids)):
+        rep.count("group:sched:duplicate schedule_id")
+    for T in {e["T"] for e in el}:
+        if len({C.canon(eff_off(e)) for e in el if e["T"] == T}) > 1:
+            rep.count("group:sched:one target time with different offsets")
+            break
 
 
 def explore(ctx, rep, cases, label):
@@ -487,7 +720,7 @@ def explore(ctx, rep, cases, label):
             group_counts(rep, c)
     for c, o, rec in flatten(cases, obs):
         ing = rec is not c
-        rep.case(c, nontrivial(c))
+        rep.case(c, nontrivial(c) and not not_judged(c))
         sp = c["spell"]
         rep.count("spell:" + sp["kind"] + (":wall-clock+fold" if "wall" in sp else ""))
         if "wall" in sp or sp.get("fold"):
@@ -505,6 +738,9 @@ def explore(ctx, rep, cases, label):
             # not an observation of taskiq: the driver's own reading of the spelled value (objects taskiq never saw)
             raise RuntimeError("harness inconsistency: case %s spells instant %r, the generator computed %r" % (
                 json.dumps(c), o["spelled_us"], c["T"]))
+        sched_counts(rep, c, o)
+        if not_judged(c):
+            continue
         if "_crash" in o:
             rep.fail("get_task_delay raised" + (GROUP_NOTE if ing else ""), rec, observed=o["_crash"])
             continue
@@ -527,6 +763,8 @@ def explore(ctx, rep, cases, label):
 
 
 def elem_fails(e, x):
+    if not_judged(e):
+        return False
     return "_crash" in x or bool(x.get("badtype")) or not oracle(e["now"], e["T"], x["delay"])
 
 
@@ -588,7 +826,7 @@ def run(ctx):
     if corpus:
         explore(ctx, rep, corpus, "corpus")
     r = ctx.sub_rng("gen")
-    cases = [gen_case(r) for _ in range(ctx.n(3400, 200000))]
+    cases = [gen_case(r) for _ in range(ctx.n(3600, 200000))]
     broken = explore(ctx, rep, cases, "main")
     rg = ctx.sub_rng("groups")
     broken = explore(ctx, rep, [gen_group(rg) for _ in range(ctx.n(170, 9000))], "back-to-back-groups") or broken
@@ -612,11 +850,44 @@ def replay(ctx, path):
     print("host time zone of the scheduler process (TZ): %s%s" % (c.get("host") or "UTC (harness default)", "" if not c.get(
         "host") else "; its naive local wall clock now() reads %s, UTC offset %s us - the statement does not depend on it" % (
         obs.get("local_now"), obs.get("host_off_us"))))
+    if c.get("sched"):
+        print("other fields of the schedule (the statement for a schedule with a target time mentions none of them): " + show_sched(c))
+        print("the evaluated task carries cron_offset=%s cron=%r" % (obs.get("off_seen"), obs.get("cron_seen")))
     nb = c["now"] // MIN * MIN + MIN
     print("statement: T<=now -> 0; T > %d -> None; else T <= now + d*1e6 < T + 1e6" % (nb + US))
-    ok = "_crash" not in obs and oracle(c["now"], c["T"], obs["delay"])
+    if not_judged(c):
+        print("cron AND time on one schedule: the cron branch decides (C13) - not judged by C14")
+        print("holds")
+        return 0
+    ok = "_crash" not in obs and not obs.get("badtype") and oracle(c["now"], c["T"], obs["delay"])
     print("holds" if ok else "VIOLATED")
     return 0 if ok else 1
+
+
+def show_off(off):
+    if off is None:
+        return "None"
+    if off["kind"] == "zone":
+        return repr(off["zone"])
+    return "timedelta(microseconds=%d)%s" % (off["us"], " given as %d seconds" % (off["us"] // US) if off.get("as") == "seconds" else "")
+
+
+def show_sched(e):
+    sc = e.get("sched")
+    if not sc:
+        return ""
+    out = ["built through " + sc.get("how", "ctor")]
+    if "off" in sc:
+        out.append("cron_offset=" + show_off(sc["off"]) + ("" if sc.get("offobj") is None else " (timedelta object#%d)" % sc["offobj"]))
+    if "reoff" in e:
+        out.append("cron_offset RE-ASSIGNED to %s before this evaluation" % show_off(e["reoff"]))
+    if sc.get("cron") is not None:
+        out.append("cron=%r" % sc["cron"])
+    for k in ("name", "sid", "labels", "args", "kwargs"):
+        if k in sc:
+            v = json.dumps(sc[k])
+            out.append("%s=%s" % (k, v if len(v) < 60 else v[:57] + "..."))
+    return "; ".join(out)
 
 
 def show_spell(e):
@@ -633,13 +904,20 @@ def replay_group(ctx, g):
     print("back-to-back group: %d schedules built (%s%s) and evaluated in ONE process%s" % (
         len(obs), g.get("mode", "interleaved"), "" if not g.get("build_order") else ", construction order %r" % g["build_order"],
         "" if g.get("at") is None else " (recorded failing element: %d)" % g["at"]))
+    if g.get("source") == "label":
+        print("every schedule is an entry of the `schedule` label of a task of ONE InMemoryBroker; "
+              "ONE LabelScheduleSource.get_schedules() call built them all")
     if g["group"] and g["group"][0].get("host"):
         print("host time zone of the scheduler process (TZ): %s - the statement does not depend on it" % g["group"][0]["host"])
     rc = 0
     for k, (e, x) in enumerate(zip(g["group"], obs)):
-        head = "[%d] now=%d T=%d (T-now=%d us) spelled %s%s%s%s" % (
+        head = "[%d] now=%d T=%d (T-now=%d us) spelled %s%s%s%s%s" % (
             k, e["now"], e["T"], e["T"] - e["now"], show_spell(e), "" if e.get("obj") is None else " object#%d" % e["obj"],
-            "" if e.get("task") is None else " task#%d" % e["task"], "" if not e.get("via") else " via " + e["via"])
+            "" if e.get("task") is None else " task#%d" % e["task"], "" if not e.get("via") else " via " + e["via"],
+            "" if not e.get("sched") else " {%s}" % show_sched(e))
+        if not_judged(e):
+            print(head + ": got %r - cron AND time, the cron branch decides (C13): not judged" % (x.get("delay"),))
+            continue
         if x.get("spelled_us") not in (None, e["T"]):
             print(head + ": HARNESS INCONSISTENCY (the spelled value is instant %r)" % x["spelled_us"])
             rc = 1
